@@ -13,7 +13,8 @@
 (* on every recorded step.                                                 *)
 (***************************************************************************)
 EXTENDS Integers, Sequences, FiniteSets, TLC, Json
-CONSTANTS MaxLen, NSeed, NParam, EmitLen
+CONSTANTS MaxLen, NSeed, NParam, EmitLen,
+          OpFilter     \* the operations a configuration may use (AllOps, or a focused subset)
 
 \* operation |-> <<argument kinds, result kind>> ; "C" contract, "L" constraint list, "S" scalar/none
 Sig == [ compose |-> <<(<<"C", "C">>), "C">>, quotient |-> <<(<<"C", "C">>), "C">>, merge |-> <<(<<"C", "C">>), "C">>,
@@ -25,7 +26,9 @@ Sig == [ compose |-> <<(<<"C", "C">>), "C">>, quotient |-> <<(<<"C", "C">>), "C"
          terms_with_vars |-> <<(<<"L">>), "L">>, is_empty |-> <<(<<"L">>), "S">>, list_copy |-> <<(<<"L">>), "L">>,
          difference |-> <<(<<"L", "L">>), "L">>, contains_env |-> <<(<<"C", "L">>), "S">>, contains_impl |-> <<(<<"C", "L">>), "S">>,
          printed |-> <<(<<"C">>), "S">>, evaluate |-> <<(<<"L">>), "L">> ]
-Ops == DOMAIN Sig
+AllOps == DOMAIN Sig
+FocusOps == {"compose", "quotient", "copy", "elim_refine", "merge"}
+Ops == DOMAIN Sig \cap OpFilter
 
 VARIABLES kinds,   \* kinds[i] : kind of pool member i ("C" / "L" / "S")
           hist,    \* sequence of [op, args, param]
